@@ -110,9 +110,16 @@ func vReadmeOps() []vOp {
 		{q: `{ me { id phone } }`},
 		{q: `{ getHumans { friends { phone name } phone } }`},
 		{q: `query($u: Boolean = true) { me { name(upper: $u) phone } }`},
-		{q: `query($s: Boolean!) { me { name phone @skip(if: $s) } }`, known: "directive-var", vars: func() map[string]interface{} { return map[string]interface{}{"s": false} }},
+		{q: `query($s: Boolean!) { me { name phone @skip(if: $s) } }`, vars: func() map[string]interface{} { return map[string]interface{}{"s": verifChoice("var_s", 2) == 1} }},
+		{q: `query($s: Boolean!) { me { name ... on Human @include(if: $s) { phone } } }`, vars: func() map[string]interface{} { return map[string]interface{}{"s": verifChoice("var_s", 2) == 1} }},
+		{q: `query($s: Boolean!) { me { name ...F @skip(if: $s) } } fragment F on Human { phone age }`, vars: func() map[string]interface{} { return map[string]interface{}{"s": verifChoice("var_s", 2) == 1} }},
+		{q: `query($s: Boolean!) { getHumans { name friends @include(if: $s) { phone } } }`, vars: func() map[string]interface{} { return map[string]interface{}{"s": verifChoice("var_s", 2) == 1} }},
 		{q: `{ node(id: "h1") { id } }`, noNode: true, known: "node-without-fragment"},
 		{q: `{ __typename me { phone } }`, known: "root-typename"},
+		// the same object field selected twice: the selections merge
+		{q: `{ me { best { name } best { phone } } }`},
+		{q: `{ me { best { id } b: best { name } best { phone } b: best { phone } } }`},
+		{q: `{ getHumans { friends { name } friends { phone friends { name } } } me { phone } me { name } }`},
 		// a depth-1 step answered for several entities, each with dependants on two other services
 		{q: `{ getHumans { pets { owner { name email } } } }`},
 		// client variables inside object and list literals that are themselves list elements
@@ -313,6 +320,7 @@ func vAbstractOps() []vOp {
 		{q: `mutation { ping }`},
 		// one field twice under different aliases, on an interface whose implementations span two services
 		{q: `{ pets { ... on Cat { toy s: nick(short: true) l: nick(short: false) } ... on Dog { bone s: nick(short: true) } } }`},
+		{q: `query($s: Boolean!) { pets { ... on Cat @include(if: $s) { toy } ... on Dog { bone } } }`, vars: func() map[string]interface{} { return map[string]interface{}{"s": verifChoice("var_s", 2) == 1} }},
 		// node lookup with several fragments, one of them id-only on a type that two services declare
 		{q: `{ node(id: "c1") { ... on Cat { name toy } ... on Dog { id } } }`, known13: "node-fragments-scrub-order"},
 		{q: `{ pets { name ... on Cat { toy lives } } }`, known: "abs-interface-field-plus-fragment"},
